@@ -16,7 +16,7 @@ EXPLANATION = (
     "escaping non-documented exception); every _run_step path taken by _run_election appends a "
     "state (progress of the while-not-finished loop) and single-round rules append exactly one; "
     "the seat parameter reaches the finish test and the top-m selector unmodified; every explicit "
-    "raise is of a documented type; an unbroken boundary tie raises ValueError and the election "
+    "raise is of a documented type and no handler around a package call swallows a ValueError / TypeError; an unbroken boundary tie raises ValueError and the election "
     "loop of elect_cands_from_set_ranking stops at the first index reaching m; the candidates "
     "removed from the profile in a step are the candidates recorded as elected/eliminated. "
     "Does NOT decide termination of multi-round rules, |elected| = m, or the partition/monotone "
